@@ -2,6 +2,7 @@
      KERN tag key=value ...   -> the four violation kernels and _isRefinementOver, printed exactly as harness/C03.cpp prints them
      GATE tag key=value ...   -> hypotheses / zero test of gate_zero_is_optimal and check_opt_exact on a returned answer
      OBJ tag x=...            -> the objective value as the code computes it, and c.x + offset
+     TYPES tag                -> the range types of all columns and rows (model of _rangeTypeRational)
    All numbers are exact rationals; the decisions are made by the functions extracted from coq/RatGateModel.v. *)
 open Zutil
 
@@ -104,6 +105,12 @@ let () =
         let (g, s, _, _) = gate_of p a in
         Printf.printf "GATE %s consistent=%s zero=%s optexact=%s\n" tag (b (Model.gate_consistent g s)) (b (Model.gate_zero g s))
           (b (Model.check_opt_exact p s.Model.s_primal s.Model.s_dual))
+      | "TYPES" :: tag :: _ ->
+        (* the range types _rangeTypeRational gives for the bounds and sides of the LP (hypothesis types_match of the gate theorem) *)
+        let p = getlp () in
+        let ct0 = List.map (fun c -> Model.range_type c.Model.c_lo c.Model.c_up) p.Model.cols in
+        let rt0 = List.map (fun r -> Model.range_type r.Model.r_lhs r.Model.r_rhs) p.Model.rows in
+        Printf.printf "TYPES %s ctypes=%s, rtypes=%s,\n" tag (implode (List.map char_of_rt ct0)) (implode (List.map char_of_rt rt0))
       | "OBJ" :: tag :: toks ->
         let p = getlp () in
         let a = kv toks in
